@@ -130,7 +130,8 @@ class SPDom(Domain):
                                 "'%s' is not sorted by descending priority after its last modification" % self.soft, text=txt)
         # emptiness of a call-free iterable is a fact shared by every loop over it
         it = node.iter
-        if calls_in_order(it):
+        if any(not (self.pure_call(c) or (isinstance(c.func, ast.Name) and c.func.id in ("range", "reversed", "enumerate", "sorted", "list", "tuple")))
+               for c in calls_in_order(it)):
             return [("enter", st), ("exit", st)]
         key = (("nonempty " + norm(it)), tuple(sorted(names_in(it))), ())
         for k, v in st.facts:
